@@ -24,6 +24,16 @@
 (*   Mode "hdrbits" every single-bit difference in the 16-bit class (8 base     *)
 (*                  values), the type and the TTL (two 16-bit limbs)            *)
 (*                  -> [f, bit, va, vb, dup]                                    *)
+(*   Mode "raw"     names holding RAW octets (the spelling a hand-built record or   *)
+(*                  the zone parser gives an octet >= 0x80: itself, no \DDD): every *)
+(*                  ordered pair of labels of 1..2 octets over the lead and          *)
+(*                  continuation octets of UTF-8 sequences that Unicode case folding *)
+(*                  relates to each other or to an ASCII letter, octets that are no  *)
+(*                  UTF-8 at all, and the letters k s (N >= 1: K S too), plus the    *)
+(*                  three-octet Kelvin sign: names are OCTET strings, only A-Z / a-z *)
+(*                  are letters (RFC 4343); pairs of different length included       *)
+(*                  -> [w, ta, tb (escaped), ra, rb (raw), wa, wb (wire), dup]       *)
+(*   "octet" vectors carry the raw spelling (ra, rb) and the wire form as well.      *)
 EXTENDS MC_Dup, GenBase
 
 CONSTANTS N, Shard, NShards
@@ -46,6 +56,18 @@ LRec(n, w) == [t |-> 1, c |-> 1, ow |-> IF w = 1 THEN EncName(LFull(n)) ELSE Enc
                rd |-> IF w = 2 THEN EncName(LFull(n)) ELSE EncName(<< <<120>> >>),
                spans |-> << << 0, IF w = 2 THEN WireLen(LFull(n)) ELSE 3 >> >>]
 
+\* the RAW spelling of a name: every octet stands for itself; only the dot and the backslash need their backslash
+RawLabel(l) == Concat([i \in 1..Len(l) |-> IF l[i] \in {46, 92} THEN << 92, l[i] >> ELSE << l[i] >>])
+RawName(n) == Concat([i \in 1..Len(n) |-> RawLabel(n[i]) \o << 46 >>])
+\* Mode "raw": C3 89 / C3 A9 = U+00C9 / U+00E9, C5 BF = U+017F (folds to s), E2 84 AA = U+212A (folds to k), FF FE = no UTF-8
+RAlpha(k) == {107, 115, 195, 137, 169, 197, 191, 255, 254} \cup (IF k >= 1 THEN {75, 83, 128, 226} ELSE {})
+RLabels(k) == UNION { [1..m -> RAlpha(k)] : m \in 1..2 } \cup { << 226, 132, 170 >> }
+\* the raw spelling is a spelling of the same name (the one reader of presentation text, Names!Parse)
+RawOK(n) == Parse(RawName(n)).st = "ok" /\ Parse(RawName(n)).labels = n
+RRec(l, w) == [t |-> 1, c |-> 1, ow |-> IF w = 1 THEN EncName(LFull(<< l >>)) ELSE EncName(<< <<97>> >>),
+               rd |-> IF w = 2 THEN EncName(LFull(<< l >>)) ELSE EncName(<< <<120>> >>),
+               spans |-> << << 0, IF w = 2 THEN WireLen(LFull(<< l >>)) ELSE 3 >> >>]
+
 \* Mode "octets": names that differ in one octet c / c XOR 0x20, in the owner (w = 1) or in an embedded name (w = 2)
 Partner(c) == IF (c \div 32) % 2 = 0 THEN c + 32 ELSE c - 32
 OctRec(c, w) == [t |-> 1, c |-> 1, o |-> IF w = 1 THEN <<120, c, 121>> ELSE <<97>>, ttl |-> 1,
@@ -57,6 +79,7 @@ GInit == \/ Mode = "pairs"   /\ \E a \in Recs, b \in Recs : x = << a, b >> /\ In
                                    x = << q, names, sh >> /\ (sh = 1 \/ Len(q) >= 2)
          \/ Mode = "octets"  /\ \E c \in 0..255, w \in 1..2 : x = << c, w >>
          \/ Mode = "labels"  /\ \E a \in LNames, b \in LNames, w \in 1..2 : x = << a, b, w >>
+         \/ Mode = "raw"     /\ \E a \in RLabels(N), b \in RLabels(N), w \in 1..2 : x = << a, b, w >>
          \/ Mode = "seqs"    /\ \E q1 \in UNION { [1..k -> 1..Len(Sym)] : k \in 0..N }, q2 \in UNION { [1..k -> 1..Len(Sym)] : k \in 0..N },
                                    names \in BOOLEAN : x = << q1, q2, names >>
          \/ Mode = "lens"    /\ \E n \in 1..3 : \E la \in LVars(n), lb \in LVars(n) : x = << n, la, lb >>
@@ -75,6 +98,14 @@ Out ==
     [] Mode = "labels" ->
          Emit([kind |-> "name2", w |-> x[3], ta |-> Present(LFull(x[1])), tb |-> Present(LFull(x[2])),
                dup |-> IsDup(LRec(x[1], x[3]), LRec(x[2], x[3]))])
+    [] Mode = "raw" ->
+         /\ RawOK(LFull(<< x[1] >>)) /\ RawOK(LFull(<< x[2] >>))
+         /\ Emit([kind |-> "rawname", w |-> x[3], ta |-> Present(LFull(<< x[1] >>)), tb |-> Present(LFull(<< x[2] >>)),
+               ra |-> RawName(LFull(<< x[1] >>)), rb |-> RawName(LFull(<< x[2] >>)),
+               wa |-> EncName(LFull(<< x[1] >>)), wb |-> EncName(LFull(<< x[2] >>)),
+               dup |-> IsDup(RRec(x[1], x[3]), RRec(x[2], x[3]))])
+         \* names are octet strings: two labels are the same name exactly when they are equal after A-Z -> a-z
+         /\ (IsDup(RRec(x[1], x[3]), RRec(x[2], x[3])) <=> Lower(x[1]) = Lower(x[2]))
     [] Mode = "seqs" ->    \* two calls in a row: the result of each depends on its own argument only
          LET d1 == DedupIdx(ListOfN(x[1], x[3], 1))  d2 == DedupIdx(ListOfN(x[2], x[3], 1)) IN
          Emit([kind |-> "seq", q |-> x[1], q2 |-> x[2], names |-> x[3],
@@ -88,7 +119,10 @@ Out ==
          Emit([kind |-> "hdrbit", f |-> x[1], bit |-> x[3], va |-> val(a), vb |-> val(b), dup |-> IsDup(a, b)])
     [] Mode = "octets" ->
          LET a == OctRec(x[1], x[2])  b == OctRec(Partner(x[1]), x[2]) IN
+         RawOK(<< <<120, x[1], 121>> >>) /\ RawOK(<< <<120, Partner(x[1]), 121>> >>) /\
          Emit([kind |-> "octet", oct |-> x[1], w |-> x[2],
                ta |-> Present(<< <<120, x[1], 121>> >>), tb |-> Present(<< <<120, Partner(x[1]), 121>> >>),
+               ra |-> RawName(<< <<120, x[1], 121>> >>), rb |-> RawName(<< <<120, Partner(x[1]), 121>> >>),
+               wa |-> EncName(<< <<120, x[1], 121>> >>), wb |-> EncName(<< <<120, Partner(x[1]), 121>> >>),
                dup |-> D(a, b)])
 =============================================================================
